@@ -3,6 +3,7 @@ package main
 import (
 	"encoding/json"
 	"fmt"
+	"strings"
 
 	"verifharness/lrm"
 	"verifharness/ref"
@@ -13,8 +14,17 @@ import (
 // exploration of the LR machine defined by yaccgo's own tables (dense and
 // packed), judged by three different oracles.
 
-func lrDepth(w *Worker) int {
-	if w.Thorough() {
+// lrDepth: class grammars have <=3 terminals and are explored to depth 5/6;
+// family grammars have larger alphabets but few viable prefixes (the search
+// only extends shifted tokens), so they are explored deeper.
+func lrDepth(w *Worker, c *GCase) int {
+	fam := strings.HasPrefix(c.Origin, "family:")
+	switch {
+	case fam && w.Thorough():
+		return 11
+	case fam:
+		return 9
+	case w.Thorough():
 		return 6
 	}
 	return 5
@@ -94,7 +104,7 @@ func lrEval(w *Worker, c *GCase, id string) {
 	accepts, rejects := 0, 0
 	violated := false
 	for _, mc := range machines {
-		x := &lrExplorer{g: g, vw: vw, m: mc.m, depth: lrDepth(w), bottom: id == "C06"}
+		x := &lrExplorer{g: g, vw: vw, m: mc.m, depth: lrDepth(w, c), bottom: id == "C06"}
 		x.visit = func(st *lrStep) {
 			if violated {
 				return
@@ -166,7 +176,7 @@ func lrEval(w *Worker, c *GCase, id string) {
 	w.Count("accepting_runs", int64(accepts))
 	w.Count("rejecting_runs", int64(rejects))
 	w.SampleEvery(w.Out.Counters["evaluations"], 4999, func() interface{} {
-		return map[string]interface{}{"grammar": key, "conflict_free": t.ConflictFree, "accepting_runs": accepts, "rejecting_runs": rejects, "depth": lrDepth(w)}
+		return map[string]interface{}{"grammar": key, "conflict_free": t.ConflictFree, "accepting_runs": accepts, "rejecting_runs": rejects, "depth": lrDepth(w, c)}
 	})
 }
 
